@@ -425,8 +425,20 @@ func sequential(i int) {
 		a := w.arts[rng.Intn(len(w.arts))]
 		switch op := rng.Intn(10); {
 		case op < 4:
-			err := rc.ManifestPut(ctx, b.ref(a.n.Digest), a.m, regclient.WithManifestChild())
-			hist = append(hist, fmt.Sprintf("put(%s subject %s)", short(a.n.Digest), short(a.subject)))
+			// the three ways a client pushes an artifact: as a child (what image copy does), as a
+			// top-level manifest by digest, and by tag (what "regctl artifact put" does)
+			var err error
+			mode := []string{"child", "by-digest", "by-tag"}[rng.Intn(3)]
+			switch mode {
+			case "child":
+				err = rc.ManifestPut(ctx, b.ref(a.n.Digest), a.m, regclient.WithManifestChild())
+			case "by-digest":
+				err = rc.ManifestPut(ctx, b.ref(a.n.Digest), a.m)
+			case "by-tag":
+				err = rc.ManifestPut(ctx, b.ref("art-"+strings.ReplaceAll(short(a.n.Digest), ":", "-")), a.m)
+			}
+			run.Count("puts_"+mode, 1)
+			hist = append(hist, fmt.Sprintf("put-%s(%s subject %s)", mode, short(a.n.Digest), short(a.subject)))
 			if err != nil {
 				run.Violation("put-fails/"+b.Kind, fmt.Sprintf("pushing an artifact failed: %v [history: %s]", err, strings.Join(hist, "; ")), map[string]any{"backend": b.key(), "history": hist})
 				return
